@@ -199,6 +199,89 @@ Definition apply_action (merge_file l10n_file ref_file : P) (a : action) (f : fs
 
 End Effect.
 
+
+(* ==== independent specification (C04_splice, C04_reparse) =====================
+   Nothing below is used by [merge]; these are the notions the theorems of
+   Properties/C04.v are stated with. *)
+Definition nspan := (nat * nat)%type.
+Definition ospan_of (s : nspan) : ospan := (Some (fst s), Some (snd s)).
+
+Definition covers (i : nat) (s : nspan) : bool := (fst s <=? i) && (i <? snd s).
+Definition covered (i : nat) (spans : list nspan) : bool := existsb (covers i) spans.
+
+(* the text with index i of its first character: every character whose index
+   lies in no span, once, in order *)
+Fixpoint keep_from (i : nat) (s : str) (spans : list nspan) : str :=
+  match s with
+  | [] => []
+  | c :: s' => if covered i spans then keep_from (S i) s' spans
+               else c :: keep_from (S i) s' spans
+  end.
+
+Definition uncovered (s : str) (spans : list nspan) : str := keep_from 0 s spans.
+
+
+(* a block is a piece of text, flagged when it is to be skipped *)
+Fixpoint block_spans (off : nat) (bs : list (bool * str)) : list nspan :=
+  match bs with
+  | [] => []
+  | (skipped, t) :: bs' =>
+      (if skipped then [(off, off + length t)] else []) ++ block_spans (off + length t) bs'
+  end.
+
+Definition kept_blocks (bs : list (bool * str)) : list str :=
+  map snd (filter (fun b => negb (fst b)) bs).
+
+
+Section Spec.
+Context {K : Type}.
+Notation skip := (@skip K).
+
+(* the sort key order on skips that have a span start *)
+Definition start_le (x y : skip) : Prop :=
+  match sk_start x, sk_start y with
+  | Some a, Some b => a <= b
+  | _, _ => False
+  end.
+
+Definition has_start (x : skip) : Prop := exists a, sk_start x = Some a.
+
+
+(* the span of a skip as a pair of numbers (junk and text entities) *)
+Definition nsp (s : skip) : nspan :=
+  match sk_span s with
+  | (Some a, Some b) => (a, b)
+  | _ => (0, 0)
+  end.
+
+(* inside the text and not empty *)
+Definition placed (n : nat) (s : skip) : Prop :=
+  exists a b, sk_span s = (Some a, Some b) /\ a < b /\ b <= n.
+
+(* two skips are the same region of the text or do not overlap *)
+Definition apart (s t : skip) : Prop :=
+  nsp s = nsp t \/ snd (nsp s) <= fst (nsp t) \/ snd (nsp t) <= fst (nsp s).
+
+
+(* a block: its text, and (key, is junk) when compare() put it into skips *)
+Definition blk := (option (K * bool) * str)%type.
+
+Definition flagged (b : blk) : bool := match fst b with Some _ => true | None => false end.
+Definition flags (bs : list blk) : list (bool * str) := map (fun b => (flagged b, snd b)) bs.
+Definition l10n_text (bs : list blk) : str := concat (map snd bs).
+Definition kept_texts (bs : list blk) : list str := kept_blocks (flags bs).
+
+Fixpoint block_skips (off : nat) (bs : list blk) : list skip :=
+  match bs with
+  | [] => []
+  | (Some (k, j), t) :: bs' =>
+      mkskip (Some off, Some (off + length t)) k j :: block_skips (off + length t) bs'
+  | (None, t) :: bs' => block_skips (off + length t) bs'
+  end.
+
+
+End Spec.
+
 (* capabilities of a registered parser class, from the generated dispatch table *)
 Fixpoint caps_of_class (name : str) (tbl : list (str * str * N)) : option N :=
   match tbl with
